@@ -2,7 +2,7 @@
 # Confirm each seeded change produced by a sub-agent in its scratch worktree: tests unchanged, demo 0 -> 1.
 # usage: verify_seeds.sh C01 C02 ...
 for id in "$@"; do
-  WT=/tmp/wt/$id
+  WT=${WTBASE:-/tmp/wt}/$id
   for k in 1 2; do
     [ -f $WT/_seed/patch$k.diff ] || { echo "$id/$k: no patch"; continue; }
     git -C $WT checkout -q -- pedal
